@@ -101,8 +101,47 @@ def handleUsageTree (args : List String) : String :=
       | none => "bad-cmd"
   | _ => "bad-op"
 
+/-- `conflicterr <depth> CMD … <UI> ARGV <n> tok…` (a command without subcommands): what an `ArgumentConflict` error of
+the VALIDATOR carries - `CF <InvalidArg> <n> <PriorArg>… L <usage line>`; `CF-PARSE` when the parser itself rejects -/
+def handleConflictErr (args : List String) : String :=
+  match args with
+  | d :: rest =>
+    match d.toNat? with
+    | none => "bad-op"
+    | some depth =>
+      match (do let c ← decCmd (depth + 3); let u ← decUInfo; pure (c, u) : Dec _).run rest with
+      | some ((cmd, u), "ARGV" :: _ :: toks) =>
+        match toks.mapM bytesOfHex with
+        | none => "bad-op"
+        | some argv =>
+          let b := Build.buildAll (depth + 2) cmd
+          let toks := if b.settings.noBinaryName then argv else argv.drop 1
+          match Parser.parse (fun _ _ => false) (fun _ _ _ => none) b toks {} with
+          | some (p1, .ok ()) =>
+            match Parser.resolvePending b p1 with
+            | (p2, .ok ()) =>
+              match Parser.addEnv b b.args p2 with
+              | (p3, .ok ()) =>
+                match Parser.addDefaults b b.args p3 with
+                | (p4, .ok ()) =>
+                  match Validator.potential b p4.args with
+                  | none => "PANIC"
+                  | some pot =>
+                    match Usage.conflictError b u p4.args pot with
+                    | none => "PANIC"
+                    | some none => "NO-CONFLICT"
+                    | some (some (ia, prior, line)) =>
+                      s!"CF {hexOfBytes ia} {prior.length}" ++ String.join (prior.map fun r => " " ++ hexOfBytes r) ++ " L " ++ hexOfBytes line
+                | _ => "CF-PARSE"
+              | _ => "CF-PARSE"
+            | _ => "CF-PARSE"
+          | _ => "CF-PARSE"
+      | _ => "bad-cmd"
+  | _ => "bad-op"
+
 def handleL10 (cmd : String) (args : List String) : Option String :=
-  if cmd == "usaget" then some (handleUsageTree args)
+  if cmd == "conflicterr" then some (handleConflictErr args)
+  else if cmd == "usaget" then some (handleUsageTree args)
   else if cmd == "usage" then some (handleUsage args)
   else if cmd == "usageerr" then some (handleUsageErr args) else none
 
